@@ -70,6 +70,11 @@ def check_monotone(rep, facts, rule):
                     ok = True
                 else:
                     ok = (grow + d).is_zero() and not d.terms
+                    if not ok:
+                        # sizes that are not constants: whether size() and the emitted bytes agree is the layout invariant (C03 /
+                        # C09 decide it); the pass does the same with and without -c, so nothing about "shorter" follows either way
+                        rep.note('{}: symbolic sizes {} -> {} (labels -{}) are not compared here'.format(inst, r['consumed'], r['appended'], d))
+                        continue
                 where = r['updates'][0][0]['node'] if r['updates'] else (r['app_values'][0][1] if r['app_values'] else pa.loop)
                 rep.check(ok, rule, inst + ': size {} -> {}, labels -{}'.format(r['consumed'], r['appended'], d),
                           lambda name=name, r=r, where=where: Finding(rule, name, where,
